@@ -43,6 +43,23 @@ Proof.
   - apply (binary_rounding_hom 24 ZnearestE e).
 Qed.
 
+(* rounding to nearest even is odd, so the NEGATIVE powers of two qualify as well (C04 homogeneity is stated for s <> 0) *)
+Lemma nearest_even_hom_neg (prec : Z) (e : Z) : (0 < prec)%Z ->
+  hom (round radix2 (FLX_exp prec) ZnearestE) (- bpow radix2 e).
+Proof.
+  intros Hp x. replace (- bpow radix2 e * x) with (- (bpow radix2 e * x)) by ring.
+  assert (V : Valid_exp (FLX_exp prec)) by (apply FLX_exp_valid; exact Hp).
+  rewrite round_NE_opp. rewrite (binary_rounding_hom prec ZnearestE e x). ring.
+Qed.
+
+Lemma BinaryMode_hom_neg (e : Z) :
+  - bpow radix2 e <> 0 /\ hom (rnd BinaryMode) (- bpow radix2 e) /\ hom (rnd32 BinaryMode) (- bpow radix2 e).
+Proof.
+  pose proof (bpow_gt_0 radix2 e) as Hp. repeat split; try lra.
+  - apply nearest_even_hom_neg. reflexivity.
+  - apply nearest_even_hom_neg. reflexivity.
+Qed.
+
 (* the rounding is not the identity: 2^53 + 1 is not a binary64 number *)
 Lemma rn53_not_identity : rn53 (bpow radix2 53 + 1) <> bpow radix2 53 + 1.
 Proof.
